@@ -72,6 +72,8 @@ pub fn fins(id: u32, out: Out) -> impl Fn(&R) + Send + 'static {
     move |_| { cb(id); if let P = out { panic!("user{}", id) } } }
 pub fn forelse(id: u32, out: Out) -> impl Fn(i64) -> R + Send + 'static {
     move |e| { cb(id); match out { O(c) => Ok(mix(e, c)), E(c) => Err(mix(e, c)), P => panic!("user{}", id) } } }
+/// operand of `<|`: a value, evaluated whenever the chain reaches the operator
+pub fn forv(id: u32, out: Out) -> R { cb(id); match out { O(c) => Ok(c), E(c) => Err(c), P => panic!("user{}", id) } }
 pub fn fmaperr(id: u32, out: Out) -> impl Fn(i64) -> i64 + Send + 'static {
     move |e| { cb(id); match out { O(c) | E(c) => mix(e, c), P => panic!("user{}", id) } } }
 static GATES: Mutex<Vec<(u32, std::sync::Arc<std::sync::Barrier>)>> = Mutex::new(Vec::new());
@@ -183,7 +185,7 @@ class Prog:
 
     def operand_src(self, op, k):
         fn = {"init": "init", "map": "fmap", "andThen": "fand", "then": "fthen", "inspect": "fins",
-              "orElse": "forelse", "mapErr": "fmaperr"}[op.mode]
+              "orElse": "forelse", "mapErr": "fmaperr", "or": "forv"}[op.mode]
         call = "%s(%d, %s)" % (fn, op.cb + self.base if op.cb else 0, self.out_src(op.out))
         if getattr(op, "gate", None):
             call = "fgate(%d, %d)" % (op.gate[0] + self.base, op.gate[1])
@@ -213,7 +215,7 @@ class Prog:
         return call
 
     def op_src(self, op, k):
-        sym = {"map": "|>", "andThen": "=>", "then": "->", "inspect": "??", "orElse": "<=", "mapErr": "!>"}
+        sym = {"map": "|>", "andThen": "=>", "then": "->", "inspect": "??", "orElse": "<=", "mapErr": "!>", "or": "<|"}
         if op.mode == "init":
             return self.operand_src(op, k)
         w = getattr(op, "wspell", 0)
@@ -682,9 +684,11 @@ def gen_scaffold(rng, pid, kind, name=None, max_branches=4, max_depth=4, fail_ra
                 if k == 0 and first:
                     mode = "init"
                 else:
-                    mode = rng.pick(["map", "andThen", "then", "inspect", "orElse", "mapErr", "andThen", "map"])
+                    # `<|` takes a value, not a callback: only in the sync scaffold (the async one maps operators to future combinators)
+                    mode = rng.pick(["map", "andThen", "then", "inspect", "orElse", "mapErr", "andThen", "map"] +
+                                    (["or"] if kind[1] == "0" else []))
                 cbid = ids.next()
-                out = outcome(mode in ("init", "andThen", "then", "orElse"))
+                out = outcome(mode in ("init", "andThen", "then", "orElse", "or"))
                 if out[0] == "panic":
                     out = ("panic", cbid)
                 block = rng.chance(*block_rate)
@@ -694,8 +698,8 @@ def gen_scaffold(rng, pid, kind, name=None, max_branches=4, max_depth=4, fail_ra
                     op.wspell = 2 if (j == n_ops - 1 and rng.chance(1, 2)) else 1
                 if block:
                     op.cap_id = ids.next()
-                    if mode == "init":
-                        # the block's content is evaluated at capture time: keep the value atom quiet
+                    if mode in ("init", "or"):
+                        # the block's content (a value, not a callback) is evaluated at capture time: keep the value atom quiet
                         op.cb = 0
                         if op.out[0] == "panic":
                             op.out = ("ok", 5)
@@ -1297,6 +1301,16 @@ def run_cost_programs(ctx):
     if not ok:
         ctx.broken.append(("move-only / Rc / borrowing programs do not compile through the non-spawning macros "
                            "(no Clone / Send / 'static requirement may be added)", log[-3000:]))
+        m = re.search(r"^error(?:\[E\d+\])?:.*?$(?:\n.*?)*?\n\s*-->\s+src/main\.rs:(\d+):", log, re.M)
+        if m:
+            lines = COST_PROGRAM.split("\n")
+            ln = int(m.group(1))
+            # the macro invocation the compiler complains about: the nearest line at or above the reported one that has one
+            src_line = next((lines[i].strip() for i in range(min(ln, len(lines)) - 1, -1, -1) if "join" in lines[i] and "!" in lines[i]), "")
+            ctx.out.violation({"program": src_line, "compiler": log[m.start():m.start() + 1000],
+                               "what": "a program over borrowed / move-only / !Send values that compiles on a tree where the property "
+                                       "holds does not compile through the current macros (an added move, Clone, Send or 'static requirement)"},
+                              found_input=True, signature=None)
         return
     got = dict(l.split("\t", 1) for l in out.splitlines() if "\t" in l)
     ctx.evals += len(COST_EXPECTED)
